@@ -35,6 +35,9 @@ pub enum EK {
     RegExtra,
     /// drop the `a + b` most recently registered of them (their entries become logically deleted)
     UnregExtra,
+    /// build a chain of 100 + 2a reference-counted nodes and drop its head: a deferred destruction
+    /// whose disposal pass is long enough to re-pin the collecting thread
+    DropChain,
 }
 
 #[derive(Serialize, Deserialize, Clone, Copy, Debug, PartialEq, Eq)]
@@ -83,6 +86,7 @@ struct EState {
     reactivations_sole: u64,
     nested_closure_runs: u64,
     kept_guards: u64,
+    chains_dropped: u64,
     extra_registered: u64,
     extra_unregistered: u64,
     unlinked_by: Vec<u64>,
@@ -385,6 +389,15 @@ fn main_drain_stash() {
 
 // ---- interpreter ----
 
+pub struct ENode {
+    next: circ::AtomicRc<ENode>,
+}
+unsafe impl circ::RcObject for ENode {
+    fn pop_edges(&mut self, out: &mut Vec<circ::Rc<Self>>) {
+        out.push(self.next.take());
+    }
+}
+
 struct Eth {
     tid: usize,
     guards: Vec<Guard>,
@@ -578,6 +591,17 @@ impl Eth {
                     }
                 }
             }
+            EK::DropChain => {
+                what = "drop-chain";
+                let n = 100 + 2 * op.a as usize;
+                log(format!("t{}:drop_chain({})", self.tid, n));
+                let mut head = circ::Rc::new(ENode { next: circ::AtomicRc::null() });
+                for _ in 1..n {
+                    head = circ::Rc::new(ENode { next: circ::AtomicRc::from(head) });
+                }
+                drop(head);
+                with(|e| e.chains_dropped += 1);
+            }
             EK::RegExtra => {
                 what = "reg-extra";
                 let n = op.a as usize + op.b as usize;
@@ -756,6 +780,7 @@ pub fn run_case(case: &EbrCase) -> Report {
             reactivations_sole: 0,
             nested_closure_runs: 0,
             kept_guards: 0,
+            chains_dropped: 0,
             extra_registered: 0,
             extra_unregistered: 0,
             unlinked_by: vec![0; 8],
@@ -878,6 +903,7 @@ pub fn run_case(case: &EbrCase) -> Report {
         rep.count("reactivations_on_sole_guard", e.reactivations_sole);
         rep.count("nested_closure_runs", e.nested_closure_runs);
         rep.count("guards_kept_beyond_deferred_function", e.kept_guards);
+        rep.count("chains_dropped", e.chains_dropped);
         rep.count("extra_participants_registered", e.extra_registered);
         rep.count("extra_participants_unregistered", e.extra_unregistered);
         rep.count("max_registry_entries_unlinked_by_one_thread", e.unlinked_by.iter().cloned().max().unwrap_or(0));
@@ -958,6 +984,7 @@ fn run_private(case: &EbrCase) -> Report {
             reactivations_sole: 0,
             nested_closure_runs: 0,
             kept_guards: 0,
+            chains_dropped: 0,
             extra_registered: 0,
             extra_unregistered: 0,
             unlinked_by: vec![0; 8],
@@ -1016,7 +1043,7 @@ fn run_private(case: &EbrCase) -> Report {
                     g.flush();
                 }
             }
-            EK::RegExtra | EK::UnregExtra => {}
+            EK::RegExtra | EK::UnregExtra | EK::DropChain => {}
             EK::Defer | EK::Burst | EK::DeferNested | EK::DeferKeepGuard => {
                 if let Some(g) = guards[h].last() {
                     let k = if op.k == EK::Burst { 20 + (op.a as usize % 4) * 25 } else { 1 };
@@ -1173,6 +1200,7 @@ pub const EW_GUARDS: EW = &[
     (3, EK::ReactivatePanic),
     (4, EK::DeferNested),
     (3, EK::DeferKeepGuard),
+    (2, EK::DropChain),
 ];
 pub const EW_ADVANCE: EW = &[
     (1, EK::Nop),
